@@ -264,6 +264,9 @@ func Run(o *corr.Out) {
 	}
 	runScoping(o)
 	runEndToEnd(o)
+	if os.Getenv("VERIF_CONNWIRE") != "" {
+		runConnWire(o)
+	}
 }
 
 func runCodec(o *corr.Out) {
